@@ -6,7 +6,9 @@ import Tahoe.Immutable.Helper
        made, `incomingLen/encodingLen/ok` (`x` = file absent), joined by `;`, then ` used=` hex of the
        ciphertext handed to the encoder (or `none`).
     `present ACTIVE SHNUMS TOTAL` — ACTIVE ∈ 0 1, SHNUMS = `-` or numbers joined by `,`, TOTAL = number or
-       `none` (no UEB).  Output `present` | `need-new` | `need-active`. -/
+       `none` (no UEB).  Output `present` | `need-new` | `need-active`.
+    `presentp ACTIVE ANSWERS TOTAL` — the same with ANSWERS = `-` or `server.shnum` pairs joined by `,`
+       (one per share file found). -/
 open Tahoe.Drv Tahoe.Helper
 
 def parseFault (s : String) : Option Fault :=
@@ -42,6 +44,24 @@ def handle : List String → String
       | none => "bad-op"
       | some u =>
         match uploadChk active shnums u with
+        | .present _ => "present"
+        | .needUpload true => "need-new"
+        | .needUpload false => "need-active"
+    | _, _ => "bad-op"
+  | ["presentp", a, ans, tot] =>
+    let pairs : Option (List (Nat × Nat)) :=
+      if ans == "-" then some [] else
+      (ans.splitOn ",").mapM (fun e => match e.splitOn "." with
+        | [sv, sh] => do pure ((← sv.toNat?), (← sh.toNat?))
+        | _ => none)
+    match (if a == "1" then some true else if a == "0" then some false else none), pairs with
+    | some active, some answers =>
+      let ueb : Option (Option HUR) :=
+        if tot == "none" then some none else tot.toNat?.map (fun n => some ⟨0, 1, n, 1, 0, n⟩)
+      match ueb with
+      | none => "bad-op"
+      | some u =>
+        match uploadChk active (answers.map (·.2)) u with
         | .present _ => "present"
         | .needUpload true => "need-new"
         | .needUpload false => "need-active"
